@@ -58,6 +58,14 @@ CHECKS['C08'] = dict(
          'reference = a fresh FlowIRConcrete of the same working tree.',
     design='DESIGN.md section 2 C08')
 
+CHECKS['C04'] = dict(
+    technique='bounded symbolic execution (z3, own executor): presence of a definition in every configuration layer is a solver variable; oracle = fold in documented order',
+    text='For one variable (14 layer slots incl. two user files and a never-selected platform), one typed option (9 blueprint slots, '
+         'int/str/reference values) and 3-variable reference chains, every combination is executed on the real '
+         'FlowIRConcrete.get_component_configuration and compared with the documented priority fold; exhaustive within the bound.',
+    note='values are distinguishable tokens (no symbolic strings); read_user_variables stubbed; cyclic variable definitions excluded.',
+    design='DESIGN.md section 2 C04')
+
 NOT_APPLICABLE = {
     'C07': 'round trip through the real file system, PyYAML (C) and Experiment construction: nothing on the path can be made symbolic; the technique would degenerate to example testing',
     'C15': 'quantifies over processes with different hash seeds / directory listing orders, which are not values inside one symbolic execution',
